@@ -52,3 +52,13 @@ func unflatten(v reflect.Value, c []*big.Int, i *int) {
 		unflatten(v.Field(k), c, i)
 	}
 }
+
+// FlattenBytes is a canonical byte rendering of Flatten(ptr) (for observation digests).
+func FlattenBytes(ptr any) []byte {
+	var b []byte
+	for _, c := range Flatten(ptr) {
+		b = append(b, c.Text(16)...)
+		b = append(b, ',')
+	}
+	return b
+}
